@@ -180,7 +180,7 @@ Proof.
   change (fst m0 :: els_of ms') with (els_of (m0 :: ms')) in H.
   cbn [andb v_ic_common v_polarity repaired] in H.
   destruct (existsb (has_ic (K:=K)) (els_of (m0 :: ms'))) eqn:Ex; injection H as <-.
-  - rewrite SC, map_map. reflexivity.
+  - unfold icsum_signed. cbn [map ksum]. f_equal. rewrite combine_fst_sames, map_map. reflexivity.
   - unfold icsum_signed. symmetry. apply ksum_zero. intros m Hm.
     assert (Hn : has_ic (fst m) = false).
     { destruct (has_ic (fst m)) eqn:Eh; [|reflexivity]. exfalso.
@@ -226,7 +226,7 @@ Qed.
 
 (* ================= series: Thevenin sums of the combined element ============== *)
 Definition all_type (t : ety) (ms : list mem_t) : Prop := forall m, In m ms -> etyp (fst m) = t /\ valid (fst m).
-Definition same_kwf (ms : list mem_t) m0 : Prop := forall m, In m ms -> kwf (ekw (fst m)) = kwf (ekw (fst m0)).
+Definition same_kwf (ms : list mem_t) (m0 : mem_t) : Prop := forall m, In m ms -> kwf (ekw (fst m)) = kwf (ekw (fst m0)).
 Definition tzsum (ms : list mem_t) : K := ksum (map (fun m => tz (fst m)) ms).
 Definition tesum (ms : list mem_t) : K := ksum (map (fun m => sgn (snd m) (te (fst m))) ms).
 
@@ -245,13 +245,93 @@ Proof.
   - rewrite Ev, value_add. unfold vsum. apply ksum_map_ext. intros m Hm. unfold tz. rewrite (proj1 (AT m Hm)). reflexivity.
   - rewrite Ev, value_add. unfold vsum. apply ksum_map_ext. intros m Hm. unfold tz. rewrite (proj1 (AT m Hm)). reflexivity.
   - rewrite Ev, value_recip. specialize (Hr eq_refl).
-    transitivity (fmul (fdiv f1 s) (rsum ms)); [field; split; assumption|].
+    transitivity (fmul (fdiv f1 s) (rsum ms)); [fsd|].
     unfold rsum. rewrite <- ksum_scale, map_map. apply ksum_map_ext. intros m Hm. unfold tz. destruct (AT m Hm) as [A1 A2]. rewrite A1.
-    unfold valid in A2. rewrite A1 in A2. field. split; assumption.
+    unfold valid in A2. rewrite A1 in A2. fsd.
   - rewrite Ev, value_add. unfold vsum. rewrite <- ksum_scale, map_map. apply ksum_map_ext. intros m Hm. unfold tz. rewrite (proj1 (AT m Hm)). reflexivity.
   - symmetry. apply ksum_zero. intros m Hm. unfold tz. rewrite (proj1 (AT m Hm)). reflexivity.
   - rewrite Ev, value_add. unfold vsum. apply ksum_map_ext. intros m Hm. unfold tz. rewrite (proj1 (AT m Hm)). reflexivity.
   - rewrite Ev, value_recip. specialize (Hr eq_refl).
-    transitivity (rsum ms); [field; exact Hr|]. unfold rsum. apply ksum_map_ext. intros m Hm. unfold tz. rewrite (proj1 (AT m Hm)). reflexivity.
+    transitivity (rsum ms); [fsd|]. unfold rsum. apply ksum_map_ext. intros m Hm. unfold tz. rewrite (proj1 (AT m Hm)). reflexivity.
+Qed.
+
+Lemma In_first (ms : list mem_t) m0 ms' : ms = m0 :: ms' -> In m0 ms.
+Proof. intros ->. left. reflexivity. Qed.
+Lemma tesum_zero t (ms : list mem_t) : all_type t ms -> (forall e, etyp e = t -> te e = f0) -> tesum ms = f0.
+Proof. intros AT H. unfold tesum. apply ksum_zero. intros m Hm. rewrite (H _ (proj1 (AT m Hm))). apply sgn_zero. Qed.
+
+(* the unchanged tree is right under these conditions (no member of a signed
+   group points the other way, initial conditions of parallel C / series L are
+   zero, ...); everything else is findings F3 / F4 *)
+Definition plain_ok_series (t : ety) (ms : list mem_t) (m0 : mem_t) : Prop :=
+  match t with
+  | TV => forall m, In m ms -> snd m = snd m0
+  | TC => (forall m, In m ms -> snd m = snd m0 \/ icv (fst m) = f0) /\
+          (has_ic (fst m0) = false -> forall m, In m ms -> icv (fst m) = f0)
+  | TL => forall m, In m ms -> icv (fst m) = f0
+  | _ => True end.
+
+Lemma series_te_rep t (ms : list mem_t) m0 ms' add common signed nm new :
+  ms = m0 :: ms' -> all_type t ms -> series_action t = Ok (ACombine add common signed) -> same_kwf ms m0 ->
+  (common = true -> exists e0, check_ic keqb repaired e0 (els_of ms) (sames_of ms) = Ok true) ->
+  new_elem repaired (els_of ms) (sames_of ms) add common signed nm = Ok new ->
+  sgn (snd m0) (te new) = tesum ms.
+Proof.
+  intros E AT SA KW CK H. destruct (new_elem_inv repaired ms add common signed nm new m0 ms' E H) as [Et [_ [_ [Ek [_ [Ev Eic]]]]]].
+  assert (Et0 : etyp (fst m0) = t) by (apply AT; apply (In_first ms m0 ms' E)).
+  destruct t; cbn in SA; inversion SA; subst add common signed; clear SA;
+    try (rewrite (tesum_zero _ ms AT) by (intros e He; unfold te; rewrite He; reflexivity);
+         unfold te; rewrite Et, Et0; apply sgn_zero).
+  - (* C: series, initial voltages add with orientation *)
+    unfold te at 1. rewrite Et, Et0. rewrite (icv_of_opt _ new eq_refl), (ic_rep_noncommon ms m0 ms' (eic new) E Eic).
+    rewrite sgn_div by exact s_nz. unfold icsum_signed. rewrite sgn_ksum, map_map.
+    unfold tesum. transitivity (ksum (map (fun m => fdiv (sgn (snd m) (icv (fst m))) s) ms)).
+    + clear -s_nz. induction ms as [|m ms IH]; cbn [ksum map]; [field; exact s_nz|]. rewrite <- IH, sgn_ksgn. field. exact s_nz.
+    + apply ksum_map_ext. intros m Hm. unfold te. rewrite (proj1 (AT m Hm)). symmetry. apply sgn_div. exact s_nz.
+  - (* L: series, common initial current *)
+    destruct (CK eq_refl) as [e0 Hc]. pose proof (check_rep e0 ms m0 ms' E Hc) as CR.
+    unfold te at 1. rewrite Et, Et0, Ev, value_add, (icv_of_opt _ new eq_refl), (ic_rep_common ms m0 ms' (eic new) E Eic).
+    unfold tesum, vsum. transitivity (ksum (map (fun m => sgn (snd m0) (fopp (fmul (eval (fst m)) (icv (fst m0))))) ms)).
+    + rewrite <- (map_map (fun m => fopp (fmul (eval (fst m)) (icv (fst m0)))) (sgn (snd m0))), <- sgn_ksum. f_equal.
+      clear. induction ms as [|m ms IH]; cbn [ksum map]; [ring|]. rewrite <- IH. ring.
+    + apply ksum_map_ext. intros m Hm. unfold te. rewrite (proj1 (AT m Hm)). destruct (CR m Hm) as [C1 [C2|C2]].
+      * rewrite C2, C1. reflexivity.
+      * rewrite <- C1, C2. destruct (snd m), (snd m0); cbn; ring.
+  - (* V: series, values add with orientation *)
+    unfold te at 1. rewrite Et, Et0, Ek, Ev, (value_signed_rep ms m0 ms' E), sgn_mul, sgn_ksum, map_map, <- ksum_scale, map_map.
+    unfold tesum. apply ksum_map_ext. intros m Hm. unfold te. rewrite (proj1 (AT m Hm)), sgn_ksgn, sgn_mul, (KW m Hm). reflexivity.
+Qed.
+
+Lemma series_te_plain t (ms : list mem_t) m0 ms' add common signed nm new :
+  ms = m0 :: ms' -> all_type t ms -> series_action t = Ok (ACombine add common signed) -> same_kwf ms m0 ->
+  plain_ok_series t ms m0 ->
+  new_elem unchanged_tree (els_of ms) (sames_of ms) add common signed nm = Ok new ->
+  sgn (snd m0) (te new) = tesum ms.
+Proof.
+  intros E AT SA KW PO H. destruct (new_elem_inv unchanged_tree ms add common signed nm new m0 ms' E H) as [Et [_ [_ [Ek [_ [Ev Eic]]]]]].
+  assert (Et0 : etyp (fst m0) = t) by (apply AT; apply (In_first ms m0 ms' E)).
+  destruct t; cbn in SA; inversion SA; subst add common signed; clear SA;
+    try (rewrite (tesum_zero _ ms AT) by (intros e He; unfold te; rewrite He; reflexivity);
+         unfold te; rewrite Et, Et0; apply sgn_zero).
+  - destruct PO as [P1 P2].
+    unfold te at 1. rewrite Et, Et0. rewrite (icv_of_opt _ new eq_refl), (ic_plain false ms m0 ms' (eic new) E Eic).
+    rewrite sgn_div by exact s_nz. unfold tesum.
+    transitivity (ksum (map (fun m => fdiv (sgn (snd m) (icv (fst m))) s) ms)).
+    + destruct (has_ic (fst m0)) eqn:Eh.
+      * unfold icsum_plain. rewrite sgn_ksum, map_map.
+        transitivity (fdiv (ksum (map (fun m => sgn (snd m) (icv (fst m))) ms)) s).
+        -- f_equal. apply ksum_map_ext. intros m Hm. destruct (P1 m Hm) as [Q|Q]; [rewrite Q; reflexivity | rewrite Q, !sgn_zero; reflexivity].
+        -- clear -s_nz. induction ms as [|m ms IH]; cbn [ksum map]; [field; exact s_nz|]. rewrite <- IH. field. exact s_nz.
+      * rewrite sgn_zero. symmetry. transitivity (fdiv f0 s); [|field; exact s_nz].
+        rewrite (ksum_zero (fun m => fdiv (sgn (snd m) (icv (fst m))) s)); [field; exact s_nz|].
+        intros m Hm. rewrite (P2 eq_refl m Hm), sgn_zero. field. exact s_nz.
+    + apply ksum_map_ext. intros m Hm. unfold te. rewrite (proj1 (AT m Hm)). symmetry. apply sgn_div. exact s_nz.
+  - unfold te at 1. rewrite Et, Et0, (icv_of_opt _ new eq_refl), (ic_plain true ms m0 ms' (eic new) E Eic).
+    assert (Z0 : icsum_plain ms = f0) by (apply ksum_zero; exact PO).
+    replace (if has_ic (fst m0) then icsum_plain ms else f0) with (f0 : K) by (destruct (has_ic (fst m0)); [symmetry; exact Z0 | reflexivity]).
+    transitivity (f0 : K); [destruct (snd m0); cbn; ring|]. symmetry. apply ksum_zero. intros m Hm. unfold te.
+    rewrite (proj1 (AT m Hm)), (PO m Hm). destruct (snd m); cbn; ring.
+  - unfold te at 1. rewrite Et, Et0, Ek, Ev, value_signed_plain, sgn_mul. unfold vsum. rewrite sgn_ksum, map_map, <- ksum_scale, map_map.
+    unfold tesum. apply ksum_map_ext. intros m Hm. unfold te. rewrite (proj1 (AT m Hm)), sgn_mul, (KW m Hm), (PO m Hm). reflexivity.
 Qed.
 End Sem.
